@@ -9,8 +9,9 @@ pub struct Sweep<'a> {
     pub name: &'a str,
     pub tokens: Vec<&'a str>,
     pub max_len: usize,
-    /// separator variants: "" is only used when the joined text still lexes into the same tokens
     pub table: Arc<Table>,
+    /// separator between the symbols (" " for token strings, "" for character strings)
+    pub sep: &'a str,
 }
 
 /// calls `f(text, token_indices, acc)` for every string; texts are the tokens joined by one blank
@@ -33,7 +34,7 @@ pub fn sweep_strings(s: &Sweep, rep: &mut Report, f: &(dyn Fn(&str, &[usize], &m
                 text.clear();
                 for (j, &k) in idxs.iter().enumerate() {
                     if j > 0 {
-                        text.push(' ');
+                        text.push_str(s.sep);
                     }
                     text.push_str(s.tokens[k]);
                 }
